@@ -13,7 +13,7 @@ RULE = ('trees parse(src) of G1 programs (all node kinds; optional parts present
         'per-node metadata - positions, literal-token table, sourcepath, attached comments - excluded) must be '
         'exactly what Walker().walk yields, each once (by identity), each after its parent and before its own '
         'descendants (pre-order: a node\'s descendants are contiguous after it), identically on repeated walks and '
-        'from a fresh Walker, also when two traversals of one Walker object are interleaved or nested; filter(tree, c) == [n for n in walk(tree) if c(n)] for generated predicates; '
+        'from a fresh Walker and when a condition is passed to walk (documented as ignored), also when two traversals of one Walker object are interleaved or nested; filter(tree, c) == [n for n in walk(tree) if c(n)] for generated predicates; '
         'extract(tree, c, skip=k) returns the k-th match or raises TypeError exactly when there is none. '
         'non-trivial = tree with >= 10 nodes and >= 5 kinds; distinct by source text')
 ASSUMPTIONS = ['attached Comments nodes are metadata (children() is about syntactic sub-nodes); their reachability is '
@@ -135,6 +135,12 @@ def check_tree(acc, opens, src, tree, preds):
         return walked
     # filter / extract
     for name, pred in preds:
+        # walk() documents that a condition passed to it is ignored: every node is yielded regardless
+        for how, it in (('positional', w.walk(tree, pred)), ('keyword', w.walk(tree, condition=pred))):
+            if [id(n) for n in it] != ids:
+                acc.fail(None, dict(case, predicate=name), {'bucket': 'walk_with_condition_argument_drops_nodes',
+                                                             'predicate': name, 'passed': how}, opens)
+                return walked
         expect = [n for n in walked if pred(n)]
         got = list(w.filter(tree, pred))
         if [id(n) for n in got] != [id(n) for n in expect]:
